@@ -19,8 +19,15 @@ impl Property for C31Prop {
     }
     fn budget(&self, tier: Tier) -> Budget {
         match tier {
-            Tier::Quick => Budget { runs: 6_000, wall_cap_s: 32 },
-            Tier::Thorough => Budget { runs: 60_000, wall_cap_s: 320 },
+            Tier::Quick => Budget { runs: 6_000, wall_cap_s: 30 },
+            Tier::Thorough => Budget { runs: 80_000, wall_cap_s: 240 },
+        }
+    }
+    fn shrink_budget_s(&self, tier: Tier) -> u64 {
+        // Per violation signature; the unchanged tree currently yields three.
+        match tier {
+            Tier::Quick => 6,
+            Tier::Thorough => 25,
         }
     }
     fn modes(&self) -> u32 {
@@ -64,6 +71,8 @@ impl Property for C31Prop {
             "concurrent_mutual_remove",
             "concurrent_remove_of_acting_member",
             "nested_group",
+            "nested_group_cycle",
+            "members_query_would_not_return",
             "state_reloaded_via_cbor",
         ]
     }
